@@ -565,10 +565,10 @@ def main(args=None):
         parser.add_argument(
             "--arena-cache-size",
             type=int,
-            default=384 * 1024,
             help=(
                 "Set the size of the arena cache memory area, in bytes. If specified, this option overrides the memory"
-                " mode attribute with the same name in a Vela configuration file (default: %(default)s)"
+                " mode attribute with the same name in a Vela configuration file (default: 393216 when no configuration"
+                " file, system configuration or memory mode is selected)"
             ),
         )
         parser.add_argument(
@@ -659,13 +659,13 @@ def main(args=None):
         # Use Imx93 Architecture by default(args.config is None)
         if args.config is None and args.system_config == args.memory_mode == ArchitectureFeatures.DEFAULT_CONFIG:
              arch = Imx93ArchitectureFeatures(
-                vela_config_files=args.config,
+                vela_config_files=config_files,
                 system_config=ArchitectureFeatures.DEFAULT_CONFIG,
                 memory_mode=ArchitectureFeatures.DEFAULT_CONFIG,
                 accelerator_config=args.accelerator_config,
                 max_blockdep=args.max_block_dependency,
                 verbose_config=args.verbose_config,
-                arena_cache_size=args.arena_cache_size,
+                arena_cache_size=384 * 1024 if args.arena_cache_size is None else args.arena_cache_size,
             )
         else:
             if args.system_config == ArchitectureFeatures.DEFAULT_CONFIG:
@@ -675,7 +675,7 @@ def main(args=None):
                 print(f"Warning: Using {ArchitectureFeatures.DEFAULT_CONFIG} values for memory mode")
 
             arch = architecture_features.ArchitectureFeatures(
-                vela_config_files=args.config,
+                vela_config_files=config_files,
                 system_config=args.system_config,
                 memory_mode=args.memory_mode,
                 accelerator_config=args.accelerator_config,
